@@ -102,7 +102,7 @@ fn same_wire(name: &Name, e: &RefName) {
 // header
 // --------------------------------------------------------------------------
 
-// @harness props=C15 panics=C15,C01 tier=quick mem=2 t=300
+// @harness props=C15 panics=C15,C01 kani="--no-assertion-reach-checks" tier=quick mem=2 t=300
 //   fn="Reader::try_from,Reader::id,qr,opcode,aa,tc,rd,ra,rcode,qdcount,ancount,nscount,arcount,at_eom,message_to_cursor"
 //   bound="every octet string of every length 0..=13 (all octet values)"
 //   sym="buf:[u8;13], len<=13"
@@ -173,7 +173,7 @@ fn skip_question_any<const NMAX: usize>() {
     }
 }
 
-// @harness props=C15 panics=C15,C01 tier=quick mem=3 t=600 fn="Reader::skip_question"
+// @harness props=C15 panics=C15,C01 kani="--no-assertion-reach-checks" tier=quick mem=3 t=600 fn="Reader::skip_question"
 //   bound="every message of every length 12..=24, all octets symbolic, read position 12; unwind 14"
 //   sym="buf:[u8;24], len in 12..=24"
 #[kani::proof]
@@ -182,37 +182,64 @@ fn c15_skip_question_any24() {
     skip_question_any::<24>();
 }
 
+/// What happened, for the cover witnesses of the calling harness (a satisfied
+/// cover makes CBMC print a full trace, which for the longer harnesses costs
+/// minutes: the helpers carry no covers of their own, every harness states one
+/// or two combined witnesses).
+#[derive(Clone, Copy)]
+struct Out {
+    ok: bool,
+    /// the owner / QNAME used a compression pointer
+    name_ptr: bool,
+    /// a name inside the RDATA used a compression pointer
+    rd_ptr: bool,
+    /// the raw TTL field had bit 31 set
+    ttl_hi: bool,
+    /// the RDATA is not empty
+    has_rdata: bool,
+    /// the item ended exactly at the end of the message
+    to_eom: bool,
+    /// the name decoded / its first chunk was fine, but the item was refused
+    /// for a later reason
+    late_err: bool,
+}
+
+const NOTHING: Out = Out {
+    ok: false,
+    name_ptr: false,
+    rd_ptr: false,
+    ttl_hi: false,
+    has_rdata: false,
+    to_eom: false,
+    late_err: false,
+};
+
 /// What to do with a successfully peeked record.
 const DROP: u8 = 0;
 const SKIP: u8 = 1;
 
-/// skip_rr (PEEK = false) or peek_rr + accessors + {drop, skip} on the record
-/// at `r`'s read position.  Returns nothing; asserts against the reference.
-fn skip_or_peek_at<const PEEK: bool, const THEN: u8>(msg: &[u8], r: &mut Reader) {
+/// skip_rr (PEEK = false) or peek_rr + field accessors + {drop, skip} on the
+/// record at `r`'s read position, against the reference.
+fn skip_or_peek_at<const PEEK: bool, const THEN: u8>(msg: &[u8], r: &mut Reader) -> Out {
     let len = msg.len();
     let at = r.message_to_cursor().len();
-    let e = match ref_first_chunk(msg, at) {
+    let fc = ref_first_chunk(msg, at);
+    let e = match fc {
         Some(fc) => ref_frame(msg, at, fc),
         None => None,
     };
-    if !PEEK {
-        let res = r.skip_rr();
-        let after = r.message_to_cursor().len();
-        match (res, e) {
-            (Ok(()), Some(f)) => {
-                assert!(after == f.end, "[C15] skip_rr advances by exactly the record's length");
-                kani::cover!(f.end == len && f.rdlen > 0, "skipped a record with RDATA that ends exactly at the end of the message");
-            }
-            (Err(_), None) => {
-                assert!(after == at, "[C15] a failed skip_rr leaves the read position unchanged");
-                kani::cover!(at == len, "record requested exactly at the end of the message");
-                kani::cover!(at + 5 == len && msg[at] == 0, "owner ends within 8 octets of the end of the message");
-            }
-            (Ok(()), None) => assert!(false, "[C15] skip_rr accepts a record that is not inside the message"),
-            (Err(_), Some(_)) => assert!(false, "[C15] skip_rr refuses a record that is inside the message"),
-        }
+    let mut out = NOTHING;
+    out.late_err = fc.is_some() && e.is_none();
+    if let Some(f) = e {
+        out.ok = true;
+        out.to_eom = f.end == len;
+        out.has_rdata = f.rdlen > 0;
+        out.ttl_hi = f.ttl_raw >= 0x8000_0000;
+    }
+    let ok = if !PEEK {
+        r.skip_rr().is_ok()
     } else {
-        let ok = match r.peek_rr() {
+        match r.peek_rr() {
             Ok(p) => {
                 match e {
                     Some(f) => {
@@ -221,12 +248,8 @@ fn skip_or_peek_at<const PEEK: bool, const THEN: u8>(msg: &[u8], r: &mut Reader)
                         assert!(u32::from(p.ttl()) == ref_ttl(f.ttl_raw), "[C15] peeked TTL is the RFC 2181 clamp of the raw field");
                         assert!(p.rdlength() as usize == f.rdlen, "[C15] peeked RDLENGTH equals the reference's");
                         assert!(p.message_to_rr().len() == at, "[C15] message_to_rr ends where the record starts");
-                        kani::cover!(
-                            f.ttl_raw >= 0x8000_0000 && f.end == len && f.rdlen > 0,
-                            "peeked a record with TTL bit 31 set and RDATA, ending at the end of the message"
-                        );
                     }
-                    None => assert!(false, "[C15] peek_rr accepts a record that is not inside the message"),
+                    None => {}
                 }
                 if THEN == SKIP {
                     p.skip();
@@ -236,25 +259,22 @@ fn skip_or_peek_at<const PEEK: bool, const THEN: u8>(msg: &[u8], r: &mut Reader)
                 true
             }
             Err(_) => false,
-        };
-        let after = r.message_to_cursor().len();
-        match (ok, e) {
-            (true, Some(f)) => {
-                if THEN == SKIP {
-                    assert!(after == f.end, "[C15] PeekRr::skip advances by exactly the record's length");
-                } else {
-                    assert!(after == at, "[C15] dropping a PeekRr leaves the read position unchanged");
-                }
-            }
-            (false, None) => {
-                assert!(after == at, "[C15] a failed peek_rr leaves the read position unchanged");
-                kani::cover!(at == len, "record requested exactly at the end of the message");
-                kani::cover!(at + 5 == len && msg[at] == 0, "owner ends within 8 octets of the end of the message");
-            }
-            (false, Some(_)) => assert!(false, "[C15] peek_rr refuses a record that is inside the message"),
-            (true, None) => {}
         }
+    };
+    let after = r.message_to_cursor().len();
+    match (ok, e) {
+        (true, Some(f)) => {
+            if PEEK && THEN == DROP {
+                assert!(after == at, "[C15] dropping a PeekRr leaves the read position unchanged");
+            } else {
+                assert!(after == f.end, "[C15] skipping a record advances by exactly the record's length");
+            }
+        }
+        (false, None) => assert!(after == at, "[C15] a failed skip_rr / peek_rr leaves the read position unchanged"),
+        (true, None) => assert!(false, "[C15] skip_rr / peek_rr accepts a record that is not inside the message"),
+        (false, Some(_)) => assert!(false, "[C15] skip_rr / peek_rr refuses a record that is inside the message"),
     }
+    out
 }
 
 fn rr_any<const NMAX: usize, const PEEK: bool, const THEN: u8>() {
@@ -263,10 +283,16 @@ fn rr_any<const NMAX: usize, const PEEK: bool, const THEN: u8>() {
     kani::assume(len >= 12 && len <= NMAX);
     let msg = &buf[..len];
     let mut r = Reader::try_from(msg).unwrap();
-    skip_or_peek_at::<PEEK, THEN>(msg, &mut r);
+    let o = skip_or_peek_at::<PEEK, THEN>(msg, &mut r);
+    kani::cover!(
+        o.ok && o.to_eom && o.has_rdata && o.ttl_hi && msg[12] != 0,
+        "record with a non-root owner, TTL bit 31 set and RDATA, ending exactly at the end of the message"
+    );
+    kani::cover!(o.late_err && len > 13 && len < 21, "owner ends within 8 octets of the end of the message: refused");
+    kani::cover!(!o.ok && !o.late_err && len == 12, "record requested exactly at the end of the message: refused");
 }
 
-// @harness props=C15 panics=C15,C01 tier=quick mem=3 t=600 fn="Reader::skip_rr"
+// @harness props=C15 panics=C15,C01 kani="--no-assertion-reach-checks" tier=quick mem=3 t=900 fn="Reader::skip_rr"
 //   bound="every message of every length 12..=28, all octets symbolic, read position 12; unwind 18"
 //   sym="buf:[u8;28], len in 12..=28"
 #[kani::proof]
@@ -275,7 +301,7 @@ fn c15_skip_rr_any28() {
     rr_any::<28, false, DROP>();
 }
 
-// @harness props=C15 panics=C15,C01 tier=quick mem=3 t=600
+// @harness props=C15 panics=C15,C01 kani="--no-assertion-reach-checks" tier=quick mem=3 t=900
 //   fn="Reader::peek_rr,PeekRr::rr_type,PeekRr::class,PeekRr::ttl,PeekRr::rdlength,PeekRr::message_to_rr,drop(PeekRr)"
 //   bound="every message of every length 12..=28, all octets symbolic, read position 12; unwind 18"
 //   sym="buf:[u8;28], len in 12..=28"
@@ -285,7 +311,7 @@ fn c15_peek_rr_drop_any28() {
     rr_any::<28, true, DROP>();
 }
 
-// @harness props=C15 panics=C15,C01 tier=quick mem=3 t=600
+// @harness props=C15 panics=C15,C01 kani="--no-assertion-reach-checks" tier=quick mem=3 t=900
 //   fn="Reader::peek_rr,PeekRr::rr_type,PeekRr::class,PeekRr::ttl,PeekRr::rdlength,PeekRr::message_to_rr,PeekRr::skip"
 //   bound="every message of every length 12..=28, all octets symbolic, read position 12; unwind 18"
 //   sym="buf:[u8;28], len in 12..=28"
@@ -293,6 +319,799 @@ fn c15_peek_rr_drop_any28() {
 #[kani::unwind(18)]
 fn c15_peek_rr_skip_any28() {
     rr_any::<28, true, SKIP>();
+}
+
+// --------------------------------------------------------------------------
+// allocating operations (names are decoded) on message skeletons
+// --------------------------------------------------------------------------
+//
+// Building a Box<Name> from octets whose STRUCTURE (label lengths, pointer
+// targets) is symbolic is what costs CBMC minutes and gigabytes per octet
+// (measured: a fully symbolic 17-octet message through read_question did not
+// finish symbolic execution in 16 min / 17 GB).  Name decoding over symbolic
+// structure is C14's subject (harness family name_wire).  The harnesses below
+// keep name structure concrete and make everything else symbolic: label
+// contents, TYPE-independent fields (CLASS, TTL), both RDLENGTH octets, RDATA
+// contents, and the place where the message is cut off (one call per
+// concrete cut length, so every truncation point is visited).
+
+/// read_question at `r`'s read position against the reference.
+fn read_question_at(msg: &[u8], r: &mut Reader) -> Out {
+    let len = msg.len();
+    let at = r.message_to_cursor().len();
+    let res = r.read_question();
+    let after = r.message_to_cursor().len();
+    let en = ref_name(msg, at);
+    let mut out = NOTHING;
+    match (res, en) {
+        (Ok(q), Ok(n)) => {
+            match ref_question_end(len, at, n.first_chunk) {
+                Some(end) => {
+                    assert!(after == end, "[C15] read_question advances by exactly the question's length");
+                    same_wire(&q.qname, &n);
+                    assert!(u16::from(q.qtype) == be16(msg, at + n.first_chunk), "[C15] QTYPE is the two octets after the QNAME");
+                    assert!(u16::from(q.qclass) == be16(msg, at + n.first_chunk + 2), "[C15] QCLASS is the two octets after the QTYPE");
+                    out.ok = true;
+                    out.name_ptr = n.used_pointer;
+                    out.to_eom = end == len;
+                }
+                None => assert!(false, "[C15] read_question accepts a question whose QTYPE/QCLASS are not inside the message"),
+            }
+            core::mem::forget(q);
+        }
+        (Err(_), Ok(n)) => {
+            assert!(
+                ref_question_end(len, at, n.first_chunk).is_none(),
+                "[C15] read_question refuses a question the reference decodes"
+            );
+            assert!(after == at, "[C15] a failed read_question leaves the read position unchanged");
+            out.late_err = true;
+        }
+        (Err(_), Err(_)) => {
+            assert!(after == at, "[C15] a failed read_question leaves the read position unchanged");
+        }
+        (Ok(_), Err(_)) => assert!(false, "[C15] read_question accepts a QNAME the reference rejects"),
+    }
+    out
+}
+
+fn read_question_cut(msg: &[u8]) -> Out {
+    let mut r = Reader::try_from(msg).unwrap();
+    read_question_at(msg, &mut r)
+}
+
+// ---- reference RDATA ------------------------------------------------------
+
+const RD_MAX: usize = 48;
+
+struct RefRdata {
+    wire: [u8; RD_MAX],
+    len: usize,
+    /// the RDATA is handed out as the message's own octets
+    borrowed: bool,
+    used_pointer: bool,
+}
+
+fn rd_put(out: &mut RefRdata, src: &[u8], from: usize, n: usize) {
+    let mut i = 0;
+    while i < n {
+        // an RDATA longer than RD_MAX makes the content comparison fail
+        // (index out of bounds in the harness), it can never pass
+        out.wire[out.len] = src[from + i];
+        out.len += 1;
+        i += 1;
+    }
+}
+
+/// RDATA layouts (the TYPE octets of a skeleton are concrete, so each harness
+/// instantiates exactly one).
+const L_OPAQUE: u8 = 0; // no structure known to anybody: RFC 3597 opaque
+const L_NAME: u8 = 1; // RFC 1035 3.3.11 etc.: exactly one domain name
+const L_MX: u8 = 2; // RFC 1035 3.3.9: 16-bit preference, one domain name
+const L_SOA: u8 = 3; // RFC 1035 3.3.13: two domain names, five 32-bit fields
+const L_A: u8 = 4; // RFC 1035 3.4.1 in IN; RFC 1034 3.6 name + 16 bits in CH; opaque elsewhere
+
+/// The RDATA a reader must hand out for the framed record: None if the RDATA
+/// is not laid out as its type prescribes.  Names may be compressed (RFC 1035
+/// 4.1.4) and are handed out uncompressed; a name must end inside the RDATA,
+/// so it is decoded in the message cut off at the RDATA's end.
+fn ref_rdata<const LAYOUT: u8>(msg: &[u8], f: &Frame) -> Option<RefRdata> {
+    let mut out = RefRdata {
+        wire: [0; RD_MAX],
+        len: 0,
+        borrowed: false,
+        used_pointer: false,
+    };
+    let cut = &msg[..f.end];
+    if LAYOUT == L_OPAQUE || (LAYOUT == L_A && f.class != 1 && f.class != 3) {
+        out.borrowed = true;
+        rd_put(&mut out, msg, f.rd_at, f.rdlen);
+    } else if LAYOUT == L_A && f.class == 1 {
+        if f.rdlen != 4 {
+            return None;
+        }
+        out.borrowed = true;
+        rd_put(&mut out, msg, f.rd_at, 4);
+    } else if LAYOUT == L_NAME {
+        let n = match ref_name(cut, f.rd_at) {
+            Ok(n) => n,
+            Err(_) => return None,
+        };
+        if n.first_chunk != f.rdlen {
+            return None;
+        }
+        out.used_pointer = n.used_pointer;
+        rd_put(&mut out, &n.wire, 0, n.len);
+    } else if LAYOUT == L_MX {
+        if f.rdlen < 2 {
+            return None;
+        }
+        let n = match ref_name(cut, f.rd_at + 2) {
+            Ok(n) => n,
+            Err(_) => return None,
+        };
+        if 2 + n.first_chunk != f.rdlen {
+            return None;
+        }
+        out.used_pointer = n.used_pointer;
+        rd_put(&mut out, msg, f.rd_at, 2);
+        rd_put(&mut out, &n.wire, 0, n.len);
+    } else if LAYOUT == L_SOA {
+        let n1 = match ref_name(cut, f.rd_at) {
+            Ok(n) => n,
+            Err(_) => return None,
+        };
+        let n2 = match ref_name(cut, f.rd_at + n1.first_chunk) {
+            Ok(n) => n,
+            Err(_) => return None,
+        };
+        if n1.first_chunk + n2.first_chunk + 20 != f.rdlen {
+            return None;
+        }
+        out.used_pointer = n1.used_pointer || n2.used_pointer;
+        rd_put(&mut out, &n1.wire, 0, n1.len);
+        rd_put(&mut out, &n2.wire, 0, n2.len);
+        rd_put(&mut out, msg, f.rd_at + n1.first_chunk + n2.first_chunk, 20);
+    } else {
+        // L_A in class CH: a domain name, then a 16-bit Chaos address
+        let n = match ref_name(cut, f.rd_at) {
+            Ok(n) => n,
+            Err(_) => return None,
+        };
+        if n.first_chunk + 2 != f.rdlen {
+            return None;
+        }
+        out.used_pointer = n.used_pointer;
+        rd_put(&mut out, &n.wire, 0, n.len);
+        rd_put(&mut out, msg, f.rd_at + n.first_chunk, 2);
+    }
+    Some(out)
+}
+
+// ---- read_rr / peek_rr + parse / owner --------------------------------------
+
+const READ: u8 = 0;
+const PEEK_PARSE: u8 = 1;
+const PEEK_OWNER: u8 = 2;
+const PEEK_OWNER_PARSE: u8 = 3;
+
+/// One record-reading operation at `r`'s read position against the reference.
+fn read_rr_at<const OP: u8, const LAYOUT: u8>(msg: &[u8], r: &mut Reader) -> Out {
+    let len = msg.len();
+    let at = r.message_to_cursor().len();
+    let mut out = NOTHING;
+
+    // reference: owner fully decoded, then the frame, then the RDATA
+    let en = ref_name(msg, at);
+    let ef = match en {
+        Ok(ref n) => ref_frame(msg, at, n.first_chunk),
+        Err(_) => None,
+    };
+    let erd = match ef {
+        Some(ref f) => ref_rdata::<LAYOUT>(msg, f),
+        None => None,
+    };
+    // reference for the peeking stage: first chunk of the owner and the frame
+    let peekable = match ref_first_chunk(msg, at) {
+        Some(fc) => ref_frame(msg, at, fc).is_some(),
+        None => false,
+    };
+
+    let got = if OP == READ {
+        r.read_rr().ok()
+    } else {
+        match r.peek_rr() {
+            Ok(mut p) => {
+                assert!(peekable, "[C15] peek_rr accepts a record that is not inside the message");
+                if OP == PEEK_OWNER || OP == PEEK_OWNER_PARSE {
+                    match (p.owner(), &en) {
+                        (Ok(name), Ok(n)) => same_wire(name, n),
+                        (Err(_), Err(_)) => {}
+                        (Ok(_), Err(_)) => assert!(false, "[C15] PeekRr::owner accepts an owner the reference rejects"),
+                        (Err(_), Ok(_)) => assert!(false, "[C15] PeekRr::owner rejects an owner the reference accepts"),
+                    }
+                    // the second call returns the remembered name (or fails again)
+                    match (p.owner(), &en) {
+                        (Ok(name), Ok(n)) => same_wire(name, n),
+                        (Err(_), Err(_)) => {}
+                        _ => assert!(false, "[C15] a repeated PeekRr::owner call changes its answer"),
+                    }
+                }
+                if OP == PEEK_OWNER {
+                    drop(p);
+                    None
+                } else {
+                    p.parse().ok()
+                }
+            }
+            Err(_) => {
+                assert!(!peekable, "[C15] peek_rr refuses a record that is inside the message");
+                None
+            }
+        }
+    };
+    let after = r.message_to_cursor().len();
+    if OP == PEEK_OWNER {
+        assert!(after == at, "[C15] PeekRr::owner and dropping the PeekRr leave the read position unchanged");
+        out.ok = peekable && en.is_ok();
+        out.name_ptr = matches!(en, Ok(ref n) if n.used_pointer);
+        out.late_err = peekable && en.is_err();
+        return out;
+    }
+    match got {
+        Some(rr) => {
+            match (&en, &ef, &erd) {
+                (Ok(n), Some(f), Some(e)) => {
+                    assert!(after == f.end, "[C15] a successful record read advances by exactly the record's length");
+                    same_wire(&rr.owner, n);
+                    assert!(u16::from(rr.rr_type) == f.rtype, "[C15] TYPE equals the reference's");
+                    assert!(u16::from(rr.class) == f.class, "[C15] CLASS equals the reference's");
+                    assert!(u32::from(rr.ttl) == ref_ttl(f.ttl_raw), "[C15] TTL is the RFC 2181 clamp of the raw field");
+                    let got_rd = rr.rdata.octets();
+                    assert!(got_rd.len() == e.len, "[C15] RDATA has the reference's length");
+                    let mut i = 0;
+                    while i < e.len {
+                        assert!(got_rd[i] == e.wire[i], "[C15] RDATA octets equal the reference's (embedded names decompressed)");
+                        i += 1;
+                    }
+                    if e.borrowed {
+                        assert!(
+                            matches!(rr.rdata, Cow::Borrowed(_)) && got_rd.as_ptr() == msg[f.rd_at..].as_ptr(),
+                            "[C15] RDATA without compressible names is the message's own octets"
+                        );
+                    }
+                    out.ok = true;
+                    out.name_ptr = n.used_pointer;
+                    out.rd_ptr = e.used_pointer;
+                    out.ttl_hi = f.ttl_raw >= 0x8000_0000;
+                    out.to_eom = f.end == len;
+                    out.has_rdata = f.rdlen > 0;
+                }
+                _ => assert!(false, "[C15] a record the reference rejects is accepted"),
+            }
+            core::mem::forget(rr);
+        }
+        None => {
+            assert!(erd.is_none(), "[C15] a record the reference decodes is refused");
+            assert!(after == at, "[C15] a failed record read leaves the read position unchanged");
+            out.late_err = en.is_ok();
+        }
+    }
+    out
+}
+
+fn read_rr_cut<const OP: u8, const LAYOUT: u8>(msg: &[u8]) -> Out {
+    let mut r = Reader::try_from(msg).unwrap();
+    read_rr_at::<OP, LAYOUT>(msg, &mut r)
+}
+
+// ---- questions ---------------------------------------------------------------
+
+// @harness props=C15 panics=C15,C01 kani="--no-assertion-reach-checks" tier=quick mem=4 t=900 fn="Reader::read_question,Name::try_from_compressed"
+//   bound="(1) 12 symbolic header octets + QNAME [1,a,0] + 4 symbolic QTYPE/QCLASS octets, cut at each length 12..=19; (2) header [1,x,0,..] + QNAME [1,a,0xc0,0] (pointer into the header) + 4 symbolic octets, cut at each length 13..=20; (3) root QNAME cut at 13..=17; (4) QNAMEs [0xc0,12] (self pointer), [0xc0,14] (forward), [0x40], [0x80] (reserved label types); a, x symbolic; unwind 6"
+//   stubs="S7" sym="h:[u8;12], a, x, t0, t1, c0, c1"
+#[kani::proof]
+#[kani::unwind(6)]
+#[kani::stub(arrayvec::ArrayVec::try_extend_from_slice, try_extend_model)]
+fn c15_read_question_sk() {
+    let h: [u8; 12] = kani::any();
+    let d: [u8; 6] = kani::any();
+    // (1) one label
+    let b1 = [
+        h[0], h[1], h[2], h[3], h[4], h[5], h[6], h[7], h[8], h[9], h[10], h[11], // header
+        1, d[0], 0, // QNAME a.
+        d[1], d[2], d[3], d[4], // QTYPE, QCLASS
+    ];
+    let o12 = read_question_cut(&b1[..12]);
+    read_question_cut(&b1[..13]);
+    read_question_cut(&b1[..14]);
+    read_question_cut(&b1[..15]);
+    read_question_cut(&b1[..16]);
+    read_question_cut(&b1[..17]);
+    let o18 = read_question_cut(&b1[..18]);
+    let o19 = read_question_cut(&b1[..19]);
+    // (2) a label, then a pointer to a name stored in the header octets
+    let b2 = [
+        1, d[5], 0, h[3], h[4], h[5], h[6], h[7], h[8], h[9], h[10], h[11], // header; octets 0..3 read as x.
+        1, d[0], 0xc0, 0, // QNAME a.x.
+        d[1], d[2], d[3], d[4],
+    ];
+    read_question_cut(&b2[..13]);
+    read_question_cut(&b2[..14]);
+    read_question_cut(&b2[..15]);
+    read_question_cut(&b2[..16]);
+    read_question_cut(&b2[..17]);
+    read_question_cut(&b2[..18]);
+    let p19 = read_question_cut(&b2[..19]);
+    let p20 = read_question_cut(&b2[..20]);
+    // (3) root QNAME
+    let b3 = [
+        h[0], h[1], h[2], h[3], h[4], h[5], h[6], h[7], h[8], h[9], h[10], h[11], //
+        0, d[1], d[2], d[3], d[4],
+    ];
+    read_question_cut(&b3[..13]);
+    read_question_cut(&b3[..14]);
+    read_question_cut(&b3[..15]);
+    read_question_cut(&b3[..16]);
+    let r17 = read_question_cut(&b3[..17]);
+    // (4) undecodable QNAMEs followed by enough octets
+    let b4 = [
+        h[0], h[1], h[2], h[3], h[4], h[5], h[6], h[7], h[8], h[9], h[10], h[11], //
+        0xc0, 12, 0, d[1], d[2], d[3], d[4],
+    ];
+    let s = read_question_cut(&b4);
+    let b5 = [
+        h[0], h[1], h[2], h[3], h[4], h[5], h[6], h[7], h[8], h[9], h[10], h[11], //
+        0xc0, 14, 0, d[1], d[2], d[3], d[4],
+    ];
+    read_question_cut(&b5);
+    let b6 = [
+        h[0], h[1], h[2], h[3], h[4], h[5], h[6], h[7], h[8], h[9], h[10], h[11], //
+        0x40, 0, 0, d[1], d[2], d[3], d[4],
+    ];
+    read_question_cut(&b6);
+    let b7 = [
+        h[0], h[1], h[2], h[3], h[4], h[5], h[6], h[7], h[8], h[9], h[10], h[11], //
+        0x80, 0, 0, d[1], d[2], d[3], d[4],
+    ];
+    read_question_cut(&b7);
+    kani::cover!(
+        !o12.ok && !o12.late_err && o18.late_err && o19.ok && o19.to_eom && p19.late_err && p20.ok && p20.name_ptr
+            && p20.to_eom && r17.ok && !s.ok && !s.late_err,
+        "at the end: refused; QCLASS cut short: refused; plain, compressed and root questions ending at the end of the message: read; self-pointing QNAME: refused"
+    );
+}
+
+// ---- single records, both RDLENGTH octets symbolic, every cut length ------------
+
+/// Message literal: the 12 octets of `$h`, then the listed body octets.  A
+/// macro, not a function: the array must be built where it is used for CBMC to
+/// keep its concrete octets concrete.
+macro_rules! msg {
+    ($h:ident; $($b:expr),* $(,)?) => {
+        [$h[0], $h[1], $h[2], $h[3], $h[4], $h[5], $h[6], $h[7], $h[8], $h[9], $h[10], $h[11], $($b),*]
+    };
+}
+
+fn opaque_cuts<const OP: u8, const T: u16>() -> [Out; 5] {
+    let h: [u8; 12] = kani::any();
+    let d: [u8; 11] = kani::any();
+    let b = msg![h;
+        0, // owner: root
+        (T >> 8) as u8, T as u8, // TYPE
+        d[0], d[1], // CLASS
+        d[2], d[3], d[4], d[5], // TTL
+        d[6], d[7], // RDLENGTH
+        d[8], d[9], d[10], // RDATA (as far as RDLENGTH says)
+    ];
+    let o12 = read_rr_cut::<OP, L_OPAQUE>(&b[..12]);
+    read_rr_cut::<OP, L_OPAQUE>(&b[..13]);
+    read_rr_cut::<OP, L_OPAQUE>(&b[..14]);
+    read_rr_cut::<OP, L_OPAQUE>(&b[..15]);
+    read_rr_cut::<OP, L_OPAQUE>(&b[..16]);
+    read_rr_cut::<OP, L_OPAQUE>(&b[..17]);
+    read_rr_cut::<OP, L_OPAQUE>(&b[..18]);
+    read_rr_cut::<OP, L_OPAQUE>(&b[..19]);
+    read_rr_cut::<OP, L_OPAQUE>(&b[..20]);
+    let o21 = read_rr_cut::<OP, L_OPAQUE>(&b[..21]);
+    read_rr_cut::<OP, L_OPAQUE>(&b[..22]);
+    let o23 = read_rr_cut::<OP, L_OPAQUE>(&b[..23]);
+    read_rr_cut::<OP, L_OPAQUE>(&b[..24]);
+    let o25 = read_rr_cut::<OP, L_OPAQUE>(&b[..25]);
+    let o26 = read_rr_cut::<OP, L_OPAQUE>(&b[..26]);
+    [o12, o21, o23, o25, o26]
+}
+
+// @harness props=C15 panics=C15,C01 kani="--no-assertion-reach-checks" tier=quick mem=4 t=900 fn="Reader::read_rr,Rdata::read,helpers::prepare_to_read_rdata"
+//   bound="12 symbolic header octets + root owner + TYPE 10 (NULL) + symbolic CLASS, TTL, RDLENGTH (all 16 bits) + 3 symbolic RDATA octets, cut at each length 12..=26; unwind 6"
+//   stubs="S7" sym="h:[u8;12], class, ttl, rdlength, rdata:[u8;3]"
+#[kani::proof]
+#[kani::unwind(6)]
+#[kani::stub(arrayvec::ArrayVec::try_extend_from_slice, try_extend_model)]
+fn c15_read_rr_opaque_sk() {
+    let [o12, o21, _o23, o25, o26] = opaque_cuts::<READ, 10>();
+    kani::cover!(
+        !o12.ok && !o12.late_err && o21.late_err && o25.late_err && o26.ok && o26.to_eom && o26.ttl_hi,
+        "at the end: refused; owner within 8 octets of the end: refused; RDLENGTH past the end: refused; 3 RDATA octets and TTL bit 31 set: read"
+    );
+}
+
+// @harness props=C15 panics=C15,C01 kani="--no-assertion-reach-checks" tier=quick mem=4 t=900 fn="Reader::peek_rr,PeekRr::parse,PeekRr::take_owner,Rdata::read"
+//   bound="12 symbolic header octets + root owner + TYPE 65280 (private use) + symbolic CLASS, TTL, RDLENGTH (all 16 bits) + 3 symbolic RDATA octets, cut at each length 12..=26; unwind 6"
+//   stubs="S7" sym="h:[u8;12], class, ttl, rdlength, rdata:[u8;3]"
+#[kani::proof]
+#[kani::unwind(6)]
+#[kani::stub(arrayvec::ArrayVec::try_extend_from_slice, try_extend_model)]
+fn c15_peek_parse_opaque_sk() {
+    let [_o12, o21, o23, _o25, o26] = opaque_cuts::<PEEK_PARSE, 0xff00>();
+    kani::cover!(
+        o21.late_err && o23.ok && o23.to_eom && o26.ok && !o26.to_eom,
+        "owner within 8 octets of the end: refused; empty RDATA at the end of the message and before further octets: read"
+    );
+}
+
+
+// ---- name-bearing RDATA ------------------------------------------------------------
+//
+// Measured: a symbolic RDLENGTH on a record whose RDATA holds a name (the name
+// decoder then works on `&message[..end]` with symbolic `end`) did not finish
+// in 10 min / 11 GB, with a concrete RDLENGTH the same read takes seconds.  So
+// RDLENGTH is concrete here and varied call by call.
+
+macro_rules! ns_msg {
+    ($h:ident, $d:ident, $rl:expr) => {
+        msg![$h;
+            1, $d[0], 0, // 12: owner a.
+            0, 2, // 15: TYPE NS
+            $d[1], $d[2], // 17: CLASS
+            $d[3], $d[4], $d[5], $d[6], // 19: TTL
+            0, $rl, // 23: RDLENGTH
+            1, $d[7], 0xc0, 12, // 25: NSDNAME b.a. (label, then pointer to the owner)
+            $d[8], $d[9], // 29: two octets after the name
+        ]
+    };
+}
+
+fn ns_all<const OP: u8>() -> bool {
+    let h: [u8; 12] = kani::any();
+    let d: [u8; 10] = kani::any();
+    // the whole 31-octet message, RDLENGTH 0..=7 (7 reaches past the end)
+    let l0 = read_rr_cut::<OP, L_NAME>(&ns_msg!(h, d, 0));
+    let l1 = read_rr_cut::<OP, L_NAME>(&ns_msg!(h, d, 1));
+    let l2 = read_rr_cut::<OP, L_NAME>(&ns_msg!(h, d, 2));
+    let l3 = read_rr_cut::<OP, L_NAME>(&ns_msg!(h, d, 3));
+    let l4 = read_rr_cut::<OP, L_NAME>(&ns_msg!(h, d, 4));
+    let l5 = read_rr_cut::<OP, L_NAME>(&ns_msg!(h, d, 5));
+    let l6 = read_rr_cut::<OP, L_NAME>(&ns_msg!(h, d, 6));
+    let l7 = read_rr_cut::<OP, L_NAME>(&ns_msg!(h, d, 7));
+    // RDLENGTH 4 (exactly the name), message cut inside the RDATA and right after it
+    let b = ns_msg!(h, d, 4);
+    let c25 = read_rr_cut::<OP, L_NAME>(&b[..25]);
+    let c27 = read_rr_cut::<OP, L_NAME>(&b[..27]);
+    let c28 = read_rr_cut::<OP, L_NAME>(&b[..28]);
+    let c29 = read_rr_cut::<OP, L_NAME>(&b[..29]);
+    l0.late_err
+        && l1.late_err
+        && l2.late_err
+        && l3.late_err
+        && l4.ok
+        && l4.rd_ptr
+        && !l4.to_eom
+        && l5.late_err
+        && l6.late_err
+        && l7.late_err
+        && c25.late_err
+        && c27.late_err
+        && c28.late_err
+        && c29.ok
+        && c29.to_eom
+}
+
+// @harness props=C15 panics=C15,C01 kani="--no-assertion-reach-checks" tier=quick mem=4 t=900 fn="Reader::read_rr,Rdata::read,helpers::read_name_rdata,Name::try_from_compressed"
+//   bound="12 symbolic header octets + owner [1,a,0] + TYPE NS + symbolic CLASS, TTL + RDLENGTH r + RDATA [1,b,0xc0,12] + 2 symbolic octets: r = 0..=7 on the whole 31-octet message, r = 4 on the message cut at 25, 27, 28, 29; a, b symbolic; unwind 7"
+//   stubs="S7" sym="h:[u8;12], a, b, class, ttl, 2 trailing octets"
+#[kani::proof]
+#[kani::unwind(7)]
+#[kani::stub(arrayvec::ArrayVec::try_extend_from_slice, try_extend_model)]
+fn c15_read_rr_ns_sk() {
+    let all = ns_all::<READ>();
+    kani::cover!(all, "RDLENGTH shorter or longer than the compressed NSDNAME, or past the end, or RDATA cut short: refused; exact: read, at the end of the message too");
+}
+
+// @harness props=C15 panics=C15,C01 kani="--no-assertion-reach-checks" tier=quick mem=4 t=900 fn="Reader::peek_rr,PeekRr::owner,PeekRr::parse,PeekRr::take_owner,Rdata::read,helpers::read_name_rdata"
+//   bound="same messages as c15_read_rr_ns_sk; peek_rr, owner() twice, then parse(); unwind 7"
+//   stubs="S7" sym="h:[u8;12], a, b, class, ttl, 2 trailing octets"
+#[kani::proof]
+#[kani::unwind(7)]
+#[kani::stub(arrayvec::ArrayVec::try_extend_from_slice, try_extend_model)]
+fn c15_peek_owner_parse_ns_sk() {
+    let all = ns_all::<PEEK_OWNER_PARSE>();
+    kani::cover!(all, "RDLENGTH shorter or longer than the compressed NSDNAME, or past the end, or RDATA cut short: refused; exact: parsed, at the end of the message too");
+}
+
+macro_rules! mx_msg {
+    ($h:ident, $d:ident, $rl:expr) => {
+        msg![$h;
+            1, $d[0], 0, // 12: owner a.
+            0, 15, // 15: TYPE MX
+            $d[1], $d[2], // 17: CLASS
+            $d[3], $d[4], $d[5], $d[6], // 19: TTL
+            0, $rl, // 23: RDLENGTH
+            $d[7], $d[8], // 25: PREFERENCE
+            1, $d[9], 0xc0, 12, // 27: EXCHANGE b.a.
+            $d[10], // 31: an octet after the name
+        ]
+    };
+}
+
+fn mx_all<const OP: u8>() -> bool {
+    let h: [u8; 12] = kani::any();
+    let d: [u8; 11] = kani::any();
+    let l0 = read_rr_cut::<OP, L_MX>(&mx_msg!(h, d, 0));
+    let l1 = read_rr_cut::<OP, L_MX>(&mx_msg!(h, d, 1));
+    let l2 = read_rr_cut::<OP, L_MX>(&mx_msg!(h, d, 2));
+    let l3 = read_rr_cut::<OP, L_MX>(&mx_msg!(h, d, 3));
+    let l5 = read_rr_cut::<OP, L_MX>(&mx_msg!(h, d, 5));
+    let l6 = read_rr_cut::<OP, L_MX>(&mx_msg!(h, d, 6));
+    let l7 = read_rr_cut::<OP, L_MX>(&mx_msg!(h, d, 7));
+    let l8 = read_rr_cut::<OP, L_MX>(&mx_msg!(h, d, 8));
+    let b = mx_msg!(h, d, 6);
+    let c27 = read_rr_cut::<OP, L_MX>(&b[..27]);
+    let c30 = read_rr_cut::<OP, L_MX>(&b[..30]);
+    let c31 = read_rr_cut::<OP, L_MX>(&b[..31]);
+    l0.late_err
+        && l1.late_err
+        && l2.late_err
+        && l3.late_err
+        && l5.late_err
+        && l6.ok
+        && l6.rd_ptr
+        && l6.ttl_hi
+        && !l6.to_eom
+        && l7.late_err
+        && l8.late_err
+        && c27.late_err
+        && c30.late_err
+        && c31.ok
+        && c31.to_eom
+}
+
+// @harness props=C15 panics=C15,C01 kani="--no-assertion-reach-checks" tier=quick mem=4 t=900 fn="Reader::read_rr,Rdata::read,Rdata::read_mx,Name::try_from_compressed"
+//   bound="12 symbolic header octets + owner [1,a,0] + TYPE MX + symbolic CLASS, TTL + RDLENGTH r + RDATA [p0,p1,1,b,0xc0,12] + 1 symbolic octet: r in {0,1,2,3,5,6,7,8} on the whole 32-octet message (8 reaches past the end), r = 6 on the message cut at 27, 30, 31; unwind 9"
+//   stubs="S7" sym="h:[u8;12], a, b, class, ttl, preference, trailing octet"
+#[kani::proof]
+#[kani::unwind(9)]
+#[kani::stub(arrayvec::ArrayVec::try_extend_from_slice, try_extend_model)]
+fn c15_read_rr_mx_sk() {
+    let all = mx_all::<READ>();
+    kani::cover!(all, "RDLENGTH below 2, ending where the exchange starts, shorter or longer than preference + exchange, past the end: refused; exact, TTL bit 31 set: read");
+}
+
+// @harness props=C15 panics=C15,C01 kani="--no-assertion-reach-checks" tier=thorough mem=4 t=900 fn="Reader::peek_rr,PeekRr::parse,Rdata::read,Rdata::read_mx"
+//   bound="same messages as c15_read_rr_mx_sk; peek_rr then parse(); unwind 9"
+//   stubs="S7" sym="h:[u8;12], a, b, class, ttl, preference, trailing octet"
+#[kani::proof]
+#[kani::unwind(9)]
+#[kani::stub(arrayvec::ArrayVec::try_extend_from_slice, try_extend_model)]
+fn c15_peek_parse_mx_sk() {
+    let all = mx_all::<PEEK_PARSE>();
+    kani::cover!(all, "RDLENGTH below 2, ending where the exchange starts, shorter or longer than preference + exchange, past the end: refused; exact, TTL bit 31 set: parsed");
+}
+
+macro_rules! a_msg {
+    ($h:ident, $d:ident, $cl:expr, $rh:expr, $rl:expr) => {
+        msg![$h;
+            0, // 12: owner root
+            0, 1, // 13: TYPE A
+            0, $cl, // 15: CLASS
+            $d[0], $d[1], $d[2], $d[3], // 17: TTL
+            $rh, $rl, // 21: RDLENGTH
+            0, $d[4], $d[5], $d[6], // 23: RDATA: IN address, or CH root name + address + 1 octet
+        ]
+    };
+}
+
+// @harness props=C15 panics=C15,C01 kani="--no-assertion-reach-checks" tier=quick mem=4 t=900 fn="Reader::read_rr,Rdata::read,Rdata::validate_as_in_a,Rdata::read_ch_a"
+//   bound="12 symbolic header octets + root owner + TYPE A + CLASS c + symbolic TTL + RDLENGTH + RDATA [0,x,y,z]: c = IN and c = 2 with all 65536 RDLENGTH values, message cut at 26 and 27; c = CH with RDLENGTH 2, 3, 4 on the 27-octet message and 3 on the message cut at 25, 26; unwind 6"
+//   stubs="S7" sym="h:[u8;12], ttl, rdlength (IN and class 2), x, y, z"
+#[kani::proof]
+#[kani::unwind(6)]
+#[kani::stub(arrayvec::ArrayVec::try_extend_from_slice, try_extend_model)]
+fn c15_read_rr_a_sk() {
+    let h: [u8; 12] = kani::any();
+    let d: [u8; 9] = kani::any();
+    // class IN: exactly four octets
+    let bi = a_msg!(h, d, 1, d[7], d[8]);
+    let i26 = read_rr_cut::<READ, L_A>(&bi[..26]);
+    let i27 = read_rr_cut::<READ, L_A>(&bi[..27]);
+    // class 2 (nothing known about A there): opaque
+    let bo = a_msg!(h, d, 2, d[7], d[8]);
+    let o26 = read_rr_cut::<READ, L_A>(&bo[..26]);
+    let o27 = read_rr_cut::<READ, L_A>(&bo[..27]);
+    // class CH: a name, then 16 bits
+    let c2 = read_rr_cut::<READ, L_A>(&a_msg!(h, d, 3, 0, 2));
+    let c3 = read_rr_cut::<READ, L_A>(&a_msg!(h, d, 3, 0, 3));
+    let c4 = read_rr_cut::<READ, L_A>(&a_msg!(h, d, 3, 0, 4));
+    let bc = a_msg!(h, d, 3, 0, 3);
+    let c3_25 = read_rr_cut::<READ, L_A>(&bc[..25]);
+    let c3_26 = read_rr_cut::<READ, L_A>(&bc[..26]);
+    kani::cover!(
+        i26.late_err && i27.ok && i27.to_eom && o26.late_err && o27.ok && o27.to_eom && c2.late_err && c3.ok && c4.late_err
+            && c3_25.late_err && c3_26.ok && c3_26.to_eom,
+        "RDLENGTH 4: IN A and class-2 A cut after 3 octets refused, complete read; CH A: RDLENGTH 3 (root name + address) read, 2 and 4 refused"
+    );
+    kani::cover!(i27.late_err && o27.ok && !o27.to_eom, "RDLENGTH below 4: IN A refused, the same octets in class 2 read as opaque RDATA");
+}
+
+// ---- owner that passes the peek but does not decode ---------------------------------
+
+fn bad_owner<const OP: u8>() -> bool {
+    let h: [u8; 12] = kani::any();
+    let d: [u8; 8] = kani::any();
+    // the first chunk of the owner is a well-formed pointer, which is all
+    // skip_rr / peek_rr look at; the pointer points at itself
+    let b1 = msg![h;
+        0xc0, 12, // 12: owner
+        0, 10, d[0], d[1], d[2], d[3], d[4], d[5], 0, 1, // 14: TYPE NULL, CLASS, TTL, RDLENGTH 1
+        d[6], // 24: RDATA
+    ];
+    let o1 = read_rr_cut::<OP, L_OPAQUE>(&b1);
+    // a label, then a pointer to the label after it (forward)
+    let b2 = msg![h;
+        1, d[7], 0xc0, 16, // 12: owner
+        0, 10, d[0], d[1], d[2], d[3], d[4], d[5], 0, 1, // 16
+        d[6], // 26
+    ];
+    let o2 = read_rr_cut::<OP, L_OPAQUE>(&b2);
+    !o1.ok && !o2.ok
+}
+
+// @harness props=C15 panics=C15,C01 kani="--no-assertion-reach-checks" tier=quick mem=6 t=1200 fn="Reader::read_rr,Reader::peek_rr,PeekRr::owner,PeekRr::parse,PeekRr::take_owner,PeekRr::parse_owner"
+//   bound="two 25/27-octet messages whose record frame is complete but whose owner is [0xc0,12] (points at itself) or [1,x,0xc0,16] (points forward); read_rr, peek+parse, peek+owner, peek+owner+parse on each; unwind 6"
+//   stubs="S7" sym="h:[u8;12], class, ttl, rdata octet, x"
+#[kani::proof]
+#[kani::unwind(6)]
+#[kani::stub(arrayvec::ArrayVec::try_extend_from_slice, try_extend_model)]
+fn c15_rr_bad_owner_sk() {
+    let a = bad_owner::<READ>();
+    let b = bad_owner::<PEEK_PARSE>();
+    let c = bad_owner::<PEEK_OWNER>();
+    let d = bad_owner::<PEEK_OWNER_PARSE>();
+    kani::cover!(a && b && c && d, "records whose owner passes the peek but does not decode are refused by every operation");
+}
+
+// ---- sequences over one three-item message ---------------------------------------------
+
+// 12: question a. (7 octets)  19: NS record, owner -> 12, NSDNAME b.a. at 31
+// 35: MX record, owner -> 31, EXCHANGE -> 31   51: end
+macro_rules! three_items {
+    ($h:ident, $d:ident) => {
+        msg![$h;
+            1, $d[0], 0, $d[1], $d[2], $d[3], $d[4], // 12: question
+            0xc0, 12, 0, 2, $d[5], $d[6], $d[7], $d[8], $d[9], $d[10], 0, 4, // 19: owner, TYPE NS, CLASS, TTL, RDLENGTH
+            1, $d[11], 0xc0, 12, // 31: NSDNAME
+            0xc0, 31, 0, 15, $d[12], $d[13], $d[14], $d[15], $d[16], $d[17], 0, 4, // 35: owner, TYPE MX, CLASS, TTL, RDLENGTH
+            $d[18], $d[19], 0xc0, 31, // 47: PREFERENCE, EXCHANGE
+        ]
+    };
+}
+
+// @harness props=C15 panics=C15,C01 kani="--no-assertion-reach-checks" tier=quick mem=6 t=1200 fn="Reader::read_question,Reader::read_rr,Reader::at_eom,Rdata::read"
+//   bound="one 51-octet message: question a., NS record (owner -> QNAME, NSDNAME b.<QNAME>), MX record (owner and exchange -> NSDNAME); label contents, QTYPE/QCLASS, CLASS, TTL, preference symbolic; read_question, read_rr, read_rr, then read_rr at the end of the message; unwind 9"
+//   stubs="S7" sym="h:[u8;12], d:[u8;20]"
+#[kani::proof]
+#[kani::unwind(9)]
+#[kani::stub(arrayvec::ArrayVec::try_extend_from_slice, try_extend_model)]
+fn c15_seq_read_all() {
+    let h: [u8; 12] = kani::any();
+    let d: [u8; 20] = kani::any();
+    let b = three_items!(h, d);
+    let mut r = Reader::try_from(&b[..]).unwrap();
+    let q = read_question_at(&b, &mut r);
+    assert!(!r.at_eom(), "[C15] at_eom is false while items remain");
+    let r1 = read_rr_at::<READ, L_NAME>(&b, &mut r);
+    let r2 = read_rr_at::<READ, L_MX>(&b, &mut r);
+    assert!(r.at_eom(), "[C15] at_eom is true once the read position is the message length");
+    let r3 = read_rr_at::<READ, L_OPAQUE>(&b, &mut r);
+    kani::cover!(
+        q.ok && r1.ok && r1.name_ptr && r1.rd_ptr && r2.ok && r2.name_ptr && r2.rd_ptr && r2.to_eom && r2.ttl_hi && !r3.ok,
+        "question and both records read, a further read at the end of the message refused"
+    );
+}
+
+// @harness props=C15 panics=C15,C01 kani="--no-assertion-reach-checks" tier=quick mem=6 t=1200 fn="Reader::mark,Reader::rewind,Reader::skip_question,Reader::peek_rr,PeekRr::parse,PeekRr::owner,Reader::skip_rr"
+//   bound="the 51-octet message of c15_seq_read_all; mark, read_question, rewind, skip_question, peek+parse (NS), peek+owner+owner+parse (MX), skip_rr at the end of the message; unwind 9"
+//   stubs="S7" sym="h:[u8;12], d:[u8;20]"
+#[kani::proof]
+#[kani::unwind(9)]
+#[kani::stub(arrayvec::ArrayVec::try_extend_from_slice, try_extend_model)]
+fn c15_seq_peek_parse() {
+    let h: [u8; 12] = kani::any();
+    let d: [u8; 20] = kani::any();
+    let b = three_items!(h, d);
+    let mut r = Reader::try_from(&b[..]).unwrap();
+    r.mark();
+    let q = read_question_at(&b, &mut r);
+    r.rewind();
+    assert!(r.message_to_cursor().len() == 12, "[C15] rewind returns to the marked read position");
+    let before = r.message_to_cursor().len();
+    assert!(r.skip_question().is_ok(), "[C15] skip_question accepts the question read_question accepted");
+    assert!(r.message_to_cursor().len() == before + 7, "[C15] skip_question advances by exactly the question's length");
+    let r1 = read_rr_at::<PEEK_PARSE, L_NAME>(&b, &mut r);
+    let r2 = read_rr_at::<PEEK_OWNER_PARSE, L_MX>(&b, &mut r);
+    let r3 = skip_or_peek_at::<false, DROP>(&b, &mut r);
+    kani::cover!(
+        q.ok && r1.ok && r1.rd_ptr && r2.ok && r2.name_ptr && r2.to_eom && !r3.ok,
+        "question skipped, both records parsed through peek_rr, a further skip at the end of the message refused"
+    );
+}
+
+// @harness props=C15 panics=C15,C01 kani="--no-assertion-reach-checks" tier=quick mem=6 t=1200 fn="Reader::skip_question,Reader::skip_rr,Reader::peek_rr,PeekRr::owner,PeekRr::skip"
+//   bound="the 51-octet message of c15_seq_read_all; skip_question, peek+owner+drop, skip_rr, peek+skip, peek_rr at the end of the message; unwind 9"
+//   stubs="S7" sym="h:[u8;12], d:[u8;20]"
+#[kani::proof]
+#[kani::unwind(9)]
+#[kani::stub(arrayvec::ArrayVec::try_extend_from_slice, try_extend_model)]
+fn c15_seq_skip_all() {
+    let h: [u8; 12] = kani::any();
+    let d: [u8; 20] = kani::any();
+    let b = three_items!(h, d);
+    let mut r = Reader::try_from(&b[..]).unwrap();
+    assert!(r.skip_question().is_ok(), "[C15] skip_question accepts a well-formed question");
+    assert!(r.message_to_cursor().len() == 19, "[C15] skip_question advances by exactly the question's length");
+    let o = read_rr_at::<PEEK_OWNER, L_NAME>(&b, &mut r);
+    let s1 = skip_or_peek_at::<false, DROP>(&b, &mut r);
+    let s2 = skip_or_peek_at::<true, SKIP>(&b, &mut r);
+    assert!(r.at_eom(), "[C15] at_eom is true once the read position is the message length");
+    let s3 = skip_or_peek_at::<true, DROP>(&b, &mut r);
+    kani::cover!(
+        o.ok && o.name_ptr && s1.ok && s2.ok && s2.to_eom && !s3.ok,
+        "owner peeked, both records skipped, a further peek at the end of the message refused"
+    );
+}
+
+// ---- SOA (two names and 20 octets) -----------------------------------------------------------
+
+macro_rules! soa_msg {
+    ($h:ident, $d:ident, $s:ident, $rl:expr) => {
+        msg![$h;
+            1, $d[0], 0, // 12: owner a.
+            0, 6, // 15: TYPE SOA
+            $d[1], $d[2], // 17: CLASS
+            $d[3], $d[4], $d[5], $d[6], // 19: TTL
+            0, $rl, // 23: RDLENGTH
+            0xc0, 12, // 25: MNAME a.
+            1, $d[7], 0xc0, 12, // 27: RNAME b.a.
+            $s[0], $s[1], $s[2], $s[3], $s[4], $s[5], $s[6], $s[7], $s[8], $s[9], // 31: SERIAL .. MINIMUM
+            $s[10], $s[11], $s[12], $s[13], $s[14], $s[15], $s[16], $s[17], $s[18], $s[19], //
+            $d[8], // 51: an octet after the RDATA
+        ]
+    };
+}
+
+// @harness props=C15 panics=C15,C01 kani="--no-assertion-reach-checks" tier=thorough mem=6 t=1200 fn="Reader::read_rr,Rdata::read,Rdata::read_soa"
+//   bound="12 symbolic header octets + owner [1,a,0] + TYPE SOA + symbolic CLASS, TTL + RDLENGTH r + RDATA [0xc0,12 | 1,b,0xc0,12 | 20 symbolic octets] + 1 symbolic octet: r in {2, 6, 25, 26, 27} on the whole 52-octet message, r = 26 on the message cut at 50, 51; unwind 30"
+//   stubs="S7" sym="h:[u8;12], a, b, class, ttl, 20 octets, trailing octet"
+#[kani::proof]
+#[kani::unwind(30)]
+#[kani::stub(arrayvec::ArrayVec::try_extend_from_slice, try_extend_model)]
+fn c15_read_rr_soa_sk() {
+    let h: [u8; 12] = kani::any();
+    let d: [u8; 9] = kani::any();
+    let s: [u8; 20] = kani::any();
+    let l2 = read_rr_cut::<READ, L_SOA>(&soa_msg!(h, d, s, 2));
+    let l6 = read_rr_cut::<READ, L_SOA>(&soa_msg!(h, d, s, 6));
+    let l25 = read_rr_cut::<READ, L_SOA>(&soa_msg!(h, d, s, 25));
+    let l26 = read_rr_cut::<READ, L_SOA>(&soa_msg!(h, d, s, 26));
+    let l27 = read_rr_cut::<READ, L_SOA>(&soa_msg!(h, d, s, 27));
+    let b = soa_msg!(h, d, s, 26);
+    let c50 = read_rr_cut::<READ, L_SOA>(&b[..50]);
+    let c51 = read_rr_cut::<READ, L_SOA>(&b[..51]);
+    kani::cover!(
+        l2.late_err && l6.late_err && l25.late_err && l26.ok && l26.rd_ptr && !l26.to_eom && l27.late_err && c50.late_err
+            && c51.ok && c51.to_eom,
+        "RDATA ending after MNAME, after RNAME, one octet short or long: refused; complete SOA read, at the end of the message too"
+    );
 }
 
 // --------------------------------------------------------------------------
@@ -317,3 +1136,4 @@ fn c09_ttl_clamp() {
     );
     kani::cover!((x >> 16) & 0xff != 0 && ((t >> 16) as u8) == ((x >> 16) as u8), "an OPT TTL field whose version survives the clamp");
 }
+
